@@ -798,6 +798,7 @@ def execute(case):
         req = dict(requested_last_all_atom=False, requested_legacy=True)
     else:
         req = dict(requested_last_all_atom=True, requested_legacy=case.get('kw', {}).get('legacy', True))
+    req['uncontrolled_aromatic'] = kind == 'ambig'
     contracts.CONTEXT.update(req)
     try:
         return _execute(case)
